@@ -114,7 +114,7 @@ def run(ctx):
                         r_[c_] = r_[c_] + off_
                     ts[c_] = ts[c_] + off_
         dup = None
-        if m >= 2 and ctx.rng.random() < 0.2:      # the same test function listed twice (e.g. once one-sided and once two-sided)
+        if m >= 2 and (ctx.rng.random() < 0.2 or (method == "maxT" and isinstance(alts, list) and ctx.rng.random() < 0.5)):      # the same test function listed twice (e.g. once one-sided and once two-sided)
             c1, c2 = ctx.rng.sample(range(m), 2); dup = (c1, c2); ctx.count("same-callable-listed-twice")
             tv = [list(r_) for r_ in tv]; ts = list(ts)
             for r_ in tv:
